@@ -9,7 +9,8 @@
  *       pres: 0 plain | 1 integer translation (+3 pixels, request shifted back) | 2 scale: two destination
  *             pixels per source pixel | 3 PAD repeat (sx may leave the image) | 4 scale 1 + 1/65536
  *             | 5 1x1 image with NORMAL repeat (a solid source) | 6 PAD repeat and scale 1 + 1/65536
- *       mpres: 0 plain | 1 1x1 mask image with NORMAL repeat (a solid mask)
+ *             | 7 a solid-fill image (pixman_image_create_solid_fill): SRC holds the 16-bit a r g b (little endian)
+ *       mpres: 0 plain | 1 1x1 mask image with NORMAL repeat (a solid mask) | 2 a solid-fill mask (MSK: 16-bit a r g b)
  *       SRC MSK DST: hex bytes of one row (MSK "-" without mask; DST "=" keeps the destination of the
  *       previous line: a chain of operations on one destination)
  */
@@ -86,11 +87,29 @@ main (int argc, char **argv)
 	    src0 = malloc (slen + 1); memcpy (src0, src, slen);
 	    if (hasmask) { msk0 = malloc (mlen + 1); memcpy (msk0, msk, mlen); }
 
-	    s = pixman_image_create_bits (sfcode, sw, 1, (uint32_t *)src, slen);
+	    if (pres == 7)
+	    {
+		pixman_color_t c;
+		if (slen < 8) return 3;
+		c.alpha = (uint16_t)(src[0] | src[1] << 8); c.red = (uint16_t)(src[2] | src[3] << 8);
+		c.green = (uint16_t)(src[4] | src[5] << 8); c.blue = (uint16_t)(src[6] | src[7] << 8);
+		s = pixman_image_create_solid_fill (&c);
+	    }
+	    else
+		s = pixman_image_create_bits (sfcode, sw, 1, (uint32_t *)src, slen);
 	    d = pixman_image_create_bits (dfcode, dw, 1, (uint32_t *)dst, dlen);
 	    if (hasmask)
 	    {
-		m = pixman_image_create_bits (mfcode, mw, 1, (uint32_t *)msk, mlen);
+		if (mpres == 2)
+		{
+		    pixman_color_t c;
+		    if (mlen < 8) return 3;
+		    c.alpha = (uint16_t)(msk[0] | msk[1] << 8); c.red = (uint16_t)(msk[2] | msk[3] << 8);
+		    c.green = (uint16_t)(msk[4] | msk[5] << 8); c.blue = (uint16_t)(msk[6] | msk[7] << 8);
+		    m = pixman_image_create_solid_fill (&c);
+		}
+		else
+		    m = pixman_image_create_bits (mfcode, mw, 1, (uint32_t *)msk, mlen);
 		if (!m) return 3;
 		pixman_image_set_component_alpha (m, ca);
 		if (mpres == 1)
